@@ -409,11 +409,33 @@ def run(ctx):
                 ctx.ok('R-HMSENC', norm(st)[:60], where, "HHMMSS text from strftime('%H%M%S')")
         if isinstance(value, ast.Call) and (dotted(value.func) or '').split('.')[-1] == '_timedelta2tstep':
             hf = ctx.src.mod(RP).functions.get('_timedelta2tstep')
-            body_ = ' '.join(norm(s2) for s2 in iter_stmts(hf.body)) if hf is not None else ''
-            if all(k_ in body_ for k_ in ('// 3600 * 10000', '% 3600 // 60 * 100', '% 60')) and 'total_seconds' in body_:
-                ctx.ok('R-HMSENC', norm(st)[:60], where, 'step encoded from total seconds: hours*10000 + minutes*100 + seconds, hours unlimited')
+            # the helper is evaluated on sample steps (the only run-time call in it, <arg>.total_seconds(), is supplied by the sample)
+            from .. import consteval as _ce
+            verdict_ = 'unk'
+            if hf is not None and hf.args.args:
+                arg_ = hf.args.args[0].arg
+                wrong_ = None
+                verdict_ = 'ok'
+                for secs_, want_ in ((0, 0), (59, 59), (60, 100), (1800, 3000), (3599, 5959), (3600, 10000), (86400, 240000), (90061, 250101), (604800, 1680000), (360000, 1000000)):
+                    def hook_(n, secs_=secs_, arg_=arg_):
+                        if isinstance(n, ast.Call) and isinstance(n.func, ast.Attribute) and n.func.attr == 'total_seconds' and norm(n.func.value) == arg_:
+                            return float(secs_)
+                        return None
+                    body2 = [s2 for s2 in hf.body if not (isinstance(s2, ast.Expr) and isinstance(s2.value, ast.Constant))]
+                    got_ = _ce.run_block(body2, {}, hook_)
+                    if got_ is _ce.UNK:
+                        verdict_ = 'unk'
+                        break
+                    if got_ != want_:
+                        wrong_ = (secs_, got_, want_)
+                        verdict_ = 'bad'
+                        break
+            if verdict_ == 'ok':
+                ctx.ok('R-HMSENC', norm(st)[:60], where, 'step encoded by _timedelta2tstep: 10 sample steps (0 s .. 7 days) give hours*10000 + minutes*100 + seconds')
+            elif verdict_ == 'bad':
+                ctx.violation(Finding('R-HMSENC', RP, Q, st, 'the step is encoded by _timedelta2tstep, which turns %d seconds into %r instead of %d' % wrong_))
             else:
-                ctx.violation(Finding('R-HMSENC', RP, Q, st, 'the step is encoded by _timedelta2tstep, whose body is not total seconds -> hours*10000 + minutes*100 + seconds'))
+                ctx.undec('R-HMSENC', norm(st)[:60], where, '_timedelta2tstep is outside the evaluated fragment')
         if isinstance(value, ast.BinOp) and isinstance(value.op, ast.Add):
             terms = []
             def flat(e):
